@@ -29,6 +29,11 @@ pub fn shards(tier: &str) -> Vec<String> {
             v.push(format!("reord:{s}"));
         }
     }
+    // the unique tables are linear-probing hash sets: C17's state-space search over insert / remove / retain (the
+    // collection sweep) for the wrap-around hash assignment (a lost entry is a duplicate node later on)
+    for f in ["ins0-2", "ins3-5", "res", "other"] {
+        v.push(format!("tbl:k6:h2:p0:dinf:{f}"));
+    }
     // structure after importing every possible binary node record (C15's enumeration, same auditor)
     for k in 0..8 {
         v.push(format!("imp:x:binrec:{k}"));
@@ -43,6 +48,10 @@ pub fn shards(tier: &str) -> Vec<String> {
 }
 
 pub fn run(ctx: &mut Ctx) {
+    if let Some(rest) = ctx.shard.clone().strip_prefix("tbl:") {
+        ctx.shard = rest.to_string();
+        return super::c17::run(ctx);
+    }
     if let Some(rest) = ctx.shard.clone().strip_prefix("imp:") {
         ctx.shard = rest.to_string();
         return super::c15x::run_extra(ctx);
